@@ -24,7 +24,9 @@ COMPONENTS = {
         "what": ("the same two systems under faults arranged by the proxy: connection cut after every byte offset of a 3-frame stream, refused and "
                  "reset connections, peer restart, injected garbage / invalid-length frames, unencodable and oversize messages; every Enqueue's "
                  "observable events (connection-failed retry counts, send-failed, sent, dead letter, dials), the byte count of every connection and "
-                 "the receiver's observations are replayed on Remoting/Link.v + Frame.v"),
+                 "the receiver's observations are replayed on Remoting/Link.v + Frame.v; two peers (harness/cmd/remoting/twopeers.go): one sender with "
+                 "ReconnectLimit 1..2 (1..4 thorough), a peer that refuses connections and a healthy peer that gets a Tell every 12 ms from its own goroutine while "
+                 "the Tell to the refusing peer retries; each peer's mailbox is replayed on the sender machine separately"),
     },
 }
 
@@ -76,7 +78,9 @@ PROPERTIES = {
         "components": ["link"],
         "rule": ("fault scenarios on two real systems: cut after every byte offset of a 3-frame stream (ReconnectLimit 0 exhaustively; limit 2 sampled in the quick "
                  "tier, exhaustively in the thorough tier), cut inside the handshake, refused dials, reset-after-accept, peer restart, injected undecodable / "
-                 "invalid-length frames, unencodable and > 4 MiB messages, late delivery on an old connection; one case = one scenario: the Enqueue calls with "
+                 "invalid-length frames, unencodable and > 4 MiB messages, late delivery on an old connection, two peers (one refusing, one healthy with steady "
+                 "traffic; monitors c14-no-dead-letter-after-limit with a real-time bound of max(8 s, 10 x nominal back-off sum), c14-retry-count, "
+                 "c14-healthy-peer-disturbed); one case = one scenario: the Enqueue calls with "
                  "the environment's answers, against the observed events, per-connection byte counts and receiver observations. non-trivial = at least one "
                  "failed attempt or cut; distinct = distinct scenarios"),
         "modelled_not_verified": [
@@ -86,6 +90,9 @@ PROPERTIES = {
             "Link.received concatenates per-connection deliveries in connection order); without it the clause is refuted (C14_overlap_reorder_refuted, known finding)",
             "wall-clock promptness of Tell is measured, not proved; the theorem is structural (every label of an Enqueue, including LSleep, runs on the calling goroutine)",
             "back-off durations are the nominal 100 ms * 2^k capped at 3 s (jitter +-25 % not modelled)",
+            "several peers: one sender machine per remote mailbox with its own attempt counter (LinkPeers.pair_run; mailbox.go newMailbox creates one "
+            "ExponentialBackoff per Mailbox); the unit of interleaving between mailboxes is one iteration of backoff.Try's loop; the shared-counter machine "
+            "(LinkPeers.shared_run) is a hypothetical variant used only in C14_shared_counter_never_dead_letters / _refuted",
         ],
     },
 }
@@ -145,7 +152,9 @@ META = {
                  "environment script (cut after any byte of any connection, refusals, handshake failures, any ReconnectLimit) what non-overlapping connections "
                  "deliver is a subsequence of what was sent; every returned Enqueue ends in exactly one Sent event or exactly one dead letter; limit+1 failed attempts "
                  "or an encode failure give exactly one dead letter; undecodable and oversize frames do not stop later frames; after a reported failure the next attempt "
-                 "delivers on a new connection at a frame boundary. Refuted with witnesses: Tell is non-blocking (the caller sleeps `limit` times), order across "
+                 "delivers on a new connection at a frame boundary; two mailboxes of one system are independent under every interleaving of their iterations, so the dead "
+                 "letter after limit+1 failed attempts holds whatever traffic goes to another peer (with one shared back-off counter it would be lost: proved for that "
+                 "variant). Refuted with witnesses: Tell is non-blocking (the caller sleeps `limit` times), order across "
                  "overlapping connections."),
         "design_ref": "DESIGN.md section 4 C14",
         "note": ("Trusted: Coq kernel; extraction; the harness proxy (cuts, refusals, injections) and observers; M5. Known findings: c14-tell-blocks, "
